@@ -159,7 +159,8 @@ def conc_stage(mode, k, num, iters, stress, seedoff=0):
 def plan(prop, tier):
     q = tier == 'quick'
     if prop == 'C06':
-        return {'stages': lock_stages(q) + [conc_stage('c06', 4, 6 if q else 60, 3, 20 if q else 60)], 'rule': RULE_CONC, 'assumptions': ASSUME_CONC}
+        disc = [dict(gen_bfs('T', 2, extra='LockExtra'), trace='Trace_LockDisc', name='lockdiscT'), dict(gen_bfs('C', 1 if q else 2, extra='LockExtra'), trace='Trace_LockDisc', name='lockdiscC')]
+        return {'stages': lock_stages(q) + disc + [conc_stage('c06', 4, 6 if q else 60, 3, 20 if q else 60)], 'rule': RULE_CONC, 'assumptions': ASSUME_CONC}
     if prop == 'C07':
         return {'stages': globals_stages(q) + group_stages(2, 'C13', 0.1 if q else 0.5)[2:] + [conc_stage('c07inst', 4, 2 if q else 30, 2, 15 if q else 40), conc_stage('c07quiet', 6, 2 if q else 30, 3, 15 if q else 40, 1),
                                                conc_stage('c07seq', 8, 6 if q else 80, 1, 0, 2), conc_stage('c07group', 6, 2 if q else 30, 3, 15 if q else 40, 3)], 'rule': RULE_CONC, 'assumptions': ASSUME_CONC}
